@@ -361,6 +361,8 @@ def runQ (h : Hdr) (ins outs : List String) : Verdict :=
             (if toks.any isMisuse then ["use-after-close"] else []) ++
             (if toks.any isSync then ["partial-sync"] else []) ++
             (if toks.any isTick then ["tick-stall"] else []) ++
+            (if toks.any (fun t => match t with | .w c _ => c.length ≥ 65536 | _ => false) then ["write-64k-plus"] else []) ++
+            (if toks.any (fun t => match t with | .w c false => c.length ≥ 65536 | _ => false) then ["write-64k-plus-rejected"] else []) ++
             (if ins.any (fun t => t.startsWith "CL:" || t.startsWith "FL:") then ["stalled-seconds-across-close"] else []) ++
             (if tickWriteFlush 0 toks then ["write-in-tick-then-flush"] else []) ++
             (if maxChunks 0 0 toks > 1 then ["multichunk"] else []) ++
